@@ -289,6 +289,9 @@ type DataLoadContext struct {
 	DownSampling func(slotRange timeutil.SlotRange, seriesIdx uint16, fieldIdx int, getter encoding.TSDValueGetter)
 
 	PendingDataLoadTasks *atomic.Int32
+	// Reduced marks the down sampling result is reduced, the data load stages work on copies of the context
+	// which share the aggregators, only one of them can reduce(NOTE: pointer, shared by the copies like pending tasks).
+	Reduced *atomic.Bool
 }
 
 // PrepareAggregatorWithoutGrouping prepares context for without grouping query.
